@@ -1004,7 +1004,10 @@ fn check_e2e(cx: &mut Cx, t: &T, binds: &Binds)
 	let single_above_ok = results[0].1.is_ok();
 	let variants: [(&str, String, Option<String>, bool); 5] = [
 		("imported, defined above the include", format!(".addr 0x100;\n{defs}{decls}.include \"inc.asm\";\n"), None, single_above_ok),
-		("imported, declared above and defined below the include", format!(".addr 0x100;\n{decls}.include \"inc.asm\";\n{defs}"), None, single_declared_ok),
+		// here EVERY name is unvalued while the included statements are read; the single-file order "declared global, defined below"
+		// has the known-now names valued above the statements — the same partition only when there is no known-now name (with another
+		// partition the simplifier takes another route and may overflow where the other does not, which C08 tolerates)
+		("imported, declared above and defined below the include", format!(".addr 0x100;\n{decls}.include \"inc.asm\";\n{defs}"), None, single_declared_ok && defs_now.is_empty()),
 		("imported, declared above, some defined above and some below the include", format!(".addr 0x100;\n{decls}{defs_now}.include \"inc.asm\";\n{defs_later}"), None, single_declared_ok),
 		("imported through a file in between, defined above", format!(".addr 0x100;\n{defs}{decls}.include \"mid.asm\";\n"), Some(format!("{imports}.include \"inc.asm\";\n")), single_above_ok),
 		("imported through a file in between, defined below", format!(".addr 0x100;\n{decls}.include \"mid.asm\";\n{defs}"), Some(format!("{imports}.include \"inc.asm\";\n")), false),
